@@ -1,6 +1,8 @@
 """C05 — region operations are exact set algebra."""
 from checks import regioncommon as rc
 
+BRIDGE = ["Pixman.Props.RegionBridge." + n for n in ("extentCheck_bridge", "inBox_bridge", "subsumes_bridge", "goodRect_bridge", "badRect_bridge", "limits_bridge")]
+
 REQUIRED = [
     "Pixman.Props.C05.splitBand_append",
     "Pixman.Props.C05.interO_inSpans",
@@ -41,7 +43,7 @@ REQUIRED = [
 
 
 def run(ctx):
-    broken = ctx.lean_obligations("Pixman.Props.C05", REQUIRED)
+    broken = ctx.lean_obligations("Pixman.Props.C05", REQUIRED + BRIDGE, extra_modules=["Pixman.Props.RegionBridge"])
     quick = ctx.tier == "quick"
     findings = rc.run_streams(ctx, "C05", 150000 if quick else 1500000, 4 if quick else 16)
     rc.report(ctx, findings)
